@@ -29,13 +29,13 @@ Says(v) == [rate |-> v.rate, fperiod |-> v.fperiod, nstate |-> v.nstate, nstream
        wins |-> st.wins, model |-> ModelSays(st.model, [i \in 1..v.nstate |-> i + 1]),
        gv |-> IF st.usegv THEN ModelSays(st.gv, <<2>>) ELSE [trees |-> 0, sel |-> <<>>, pdfs |-> <<>>]]],
    gvoff |-> [l \in 1..NL |-> GvOffTable[l]]]
-\* one very deep tree: a chain of ChainN nodes that all ask question q (no -> next node, yes -> leaf i, the last "no" -> leaf
-\* ChainN + 1), with ChainN + 1 PDFs - more nodes and PDFs than 16 bits can index.  The file is assembled around a real voice by
+\* one very deep tree: a chain of n = 70000 nodes that all ask question q (no -> next node, yes -> leaf i, the last "no" -> leaf
+\* n + 1), with n + 1 PDFs - more nodes and PDFs than 16 bits can index.  The file is assembled around a real voice by
 \* bin/htsvoice.py (chain_voice); which PDF each label selects is said here.
-ChainN == 70000
-ChainCase(q) == [kind |-> "chain", n |-> ChainN, name |-> QuestionTable[q].name, pats |-> QuestionTable[q].pats,
-                 expect |-> [l \in 1..NL |-> IF QTable[q][l] THEN 1 ELSE ChainN + 1]]
-ChainEmit == q1 # 0 \/ \A q \in {4, 6} : PrintT(<<"CASE", ToJson(ChainCase(q))>>)
+\* (and a short chain of 9 nodes: its 10 PDFs make the binary data section begin with the byte 0x0A, a line feed)
+ChainCase(q, n) == [kind |-> "chain", n |-> n, name |-> QuestionTable[q].name, pats |-> QuestionTable[q].pats,
+                    expect |-> [l \in 1..NL |-> IF QTable[q][l] THEN 1 ELSE n + 1]]
+ChainEmit == q1 # 0 \/ \A q \in {4, 6}, n \in {9, 70000} : PrintT(<<"CASE", ToJson(ChainCase(q, n))>>)
 Emit == ChainEmit /\ (q1 = 0 \/ (q1 = q2) \/ LET v == DocQ IN DocOK(v) /\ PrintT(<<"CASE", ToJson([fam |-> [F EXCEPT !.salt = 100 * q1 + q2], voice |-> Render(v), says |-> Says(v)])>>))
 \* every question of the pool separates the label table (the three regex-fallback questions of the bundled voice never hold)
 ====
